@@ -96,6 +96,8 @@ pub trait Prop: Sync + Send {
     fn extra_evidence(&self) -> Value { json!({}) }
     /// Digest used to count distinct cases (default: hash of the JSON form).
     fn case_digest(&self, case: &Self::Case) -> u64 { digest(&serde_json::to_vec(case).unwrap_or_default()) }
+    /// Run the exploration in worker processes (a case may abort the process).
+    fn isolate(&self) -> bool { false }
     /// Maximum wall-clock seconds a single case may take before the watchdog trips.
     fn hang_secs(&self) -> u64 { 60 }
 }
@@ -107,6 +109,11 @@ pub struct Opts {
     pub verif_dir: PathBuf,
     pub replay: Option<PathBuf>,
     pub out: std::fs::File,
+    /// worker process mode: (shard, total shards)
+    pub worker: Option<(usize, usize)>,
+    pub worker_dir: Option<PathBuf>,
+    /// replay in this process even for isolated properties
+    pub inproc: bool,
 }
 
 fn splitmix(x: &mut u64) -> u64 {
@@ -149,7 +156,7 @@ fn truncate_json(v: &Value, max: usize) -> Value {
     }
 }
 
-#[derive(Debug, Clone)]
+#[derive(Debug, Clone, Serialize, serde::Deserialize)]
 struct Violation {
     signature: String,
     case: Value,
@@ -158,7 +165,7 @@ struct Violation {
     shrink_steps: usize,
 }
 
-#[derive(Default)]
+#[derive(Default, Serialize, serde::Deserialize)]
 struct Stats {
     evaluations: u64,
     nontrivial: u64,
@@ -375,23 +382,57 @@ pub fn replay_one<P: Prop>(prop: &P, path: &Path, out: &mut std::fs::File) -> i3
     }
 }
 
-pub fn run_prop<P: Prop>(prop: &P, opts: &mut Opts) -> i32 {
-    panics::init();
-    if let Some(path) = opts.replay.clone() {
-        return replay_one(prop, &path, &mut opts.out);
-    }
-    let id = prop.id();
-    let t0 = Instant::now();
-    let all_findings = findings::load(&opts.verif_dir.join("known_findings.json"));
-    let mine: Vec<Finding> = all_findings.into_iter().filter(|f| f.property == id).collect();
-    let known_open: HashSet<String> = mine
-        .iter()
-        .filter(|f| f.status == "open")
-        .map(|f| f.signature.clone())
-        .collect();
+/// Which part of the work a process does.
+struct Part {
+    /// first global shard of this process
+    base: usize,
+    /// total number of shards
+    total: usize,
+    /// threads in this process (each takes one shard: base, base+1, ...)
+    threads: usize,
+    regression: bool,
+    /// progress file: (phase, index) of the case about to run, for attributing an abort
+    progress: Option<std::fs::File>,
+}
 
-    let nthreads = opts.threads.max(1);
-    let shared = Shared {
+const PHASE_REGRESSION: u64 = 0;
+const PHASE_ENUM: u64 = 1;
+const PHASE_RANDOM: u64 = 2;
+
+fn note_progress(f: &Option<std::fs::File>, phase: u64, index: u64) {
+    use std::os::unix::fs::FileExt;
+    if let Some(f) = f {
+        let mut b = [0u8; 16];
+        b[.. 8].copy_from_slice(&phase.to_le_bytes());
+        b[8 ..].copy_from_slice(&index.to_le_bytes());
+        let _ = f.write_all_at(&b, 0);
+    }
+}
+
+fn replay_files(opts: &Opts, id: &str) -> Vec<PathBuf> {
+    let replay_dir = opts.verif_dir.join("replays").join(id);
+    let mut files: Vec<PathBuf> = std::fs::read_dir(&replay_dir)
+        .map(|rd| {
+            rd.filter_map(|e| e.ok())
+                .map(|e| e.path())
+                .filter(|p| p.extension().map(|x| x == "json").unwrap_or(false))
+                .collect()
+        })
+        .unwrap_or_default();
+    files.sort();
+    files
+}
+
+fn load_case<P: Prop>(path: &Path) -> Option<P::Case> {
+    let text = std::fs::read_to_string(path).ok()?;
+    let v: Value = serde_json::from_str(&text).ok()?;
+    serde_json::from_value::<P::Case>(v["case"].clone()).ok()
+}
+
+fn explore<P: Prop>(prop: &P, opts: &mut Opts, part: Part, known_open: &HashSet<String>, t0: Instant) -> (Stats, u64) {
+    let id = prop.id();
+    let nthreads = part.threads.max(1);
+    let shared: Shared<P::Case> = Shared {
         stop: AtomicBool::new(false),
         new_signatures: Mutex::new(HashSet::new()),
         slots: (0 .. nthreads + 1)
@@ -400,37 +441,27 @@ pub fn run_prop<P: Prop>(prop: &P, opts: &mut Opts) -> i32 {
         t0,
     };
     let mut total = Stats::default();
+    let progress = &part.progress;
 
     // ---- regression tier: committed replay files ---------------------------------
-    let replay_dir = opts.verif_dir.join("replays").join(id);
-    let mut replay_files: Vec<PathBuf> = std::fs::read_dir(&replay_dir)
-        .map(|rd| {
-            rd.filter_map(|e| e.ok())
-                .map(|e| e.path())
-                .filter(|p| p.extension().map(|x| x == "json").unwrap_or(false))
-                .collect()
-        })
-        .unwrap_or_default();
-    replay_files.sort();
     let mut regression_run = 0u64;
-    {
+    if part.regression {
         let mut w = Worker {
             prop,
-            known_open: &known_open,
+            known_open,
             shared: &shared,
             slot: nthreads,
             stats: Stats::default(),
         };
-        for path in &replay_files {
-            let Ok(text) = std::fs::read_to_string(path) else { continue };
-            let Ok(v) = serde_json::from_str::<Value>(&text) else { continue };
-            let Ok(case) = serde_json::from_value::<P::Case>(v["case"].clone()) else {
+        for (k, path) in replay_files(opts, id).iter().enumerate() {
+            let Some(case) = load_case::<P>(path) else {
                 w.stats
                     .harness_errors
                     .push(format!("replay {} does not deserialise", path.display()));
                 continue;
             };
             regression_run += 1;
+            note_progress(progress, PHASE_REGRESSION, k as u64);
             if let Some(f) = w.process(&case, "regression") {
                 w.record(f, &case, format!("regression:{}", path.display()), 0);
             }
@@ -445,18 +476,18 @@ pub fn run_prop<P: Prop>(prop: &P, opts: &mut Opts) -> i32 {
     let hang_secs = prop.hang_secs();
     let done = AtomicBool::new(false);
     let hang: Mutex<Option<(Vec<u8>, u64)>> = Mutex::new(None);
-    let shared: Shared<P::Case> = shared;
+    let (base, nshards) = (part.base, part.total.max(1));
 
     std::thread::scope(|s| {
         let mut handles = Vec::new();
         for t in 0 .. nthreads {
             let shared = &shared;
-            let known_open = &known_open;
             handles.push(
                 std::thread::Builder::new()
                     .name(format!("gdv-{t}"))
                     .stack_size(16 << 20)
                     .spawn_scoped(s, move || {
+                        let shard = base + t;
                         let mut w = Worker {
                             prop,
                             known_open,
@@ -465,21 +496,23 @@ pub fn run_prop<P: Prop>(prop: &P, opts: &mut Opts) -> i32 {
                             stats: Stats::default(),
                         };
                         // enumerated cases
-                        for (k, case) in prop.enumerated(tier, t, nthreads).enumerate() {
+                        for (k, case) in prop.enumerated(tier, shard, nshards).enumerate() {
                             if shared.stop.load(Ordering::Relaxed) {
                                 break;
                             }
+                            note_progress(progress, PHASE_ENUM, k as u64);
                             if let Some(f) = w.process(&case, "enumerated") {
-                                w.record(f, &case, format!("enumerated shard {t} #{k}"), 0);
+                                w.record(f, &case, format!("enumerated shard {shard} #{k}"), 0);
                             }
                         }
                         // random cases
                         let strategy = prop.strategy(tier);
-                        let mut i = t as u64;
+                        let mut i = shard as u64;
                         while i < n_random {
                             if shared.stop.load(Ordering::Relaxed) {
                                 break;
                             }
+                            note_progress(progress, PHASE_RANDOM, i);
                             let mut runner = TestRunner::new_with_rng(
                                 Config {
                                     failure_persistence: None,
@@ -501,7 +534,7 @@ pub fn run_prop<P: Prop>(prop: &P, opts: &mut Opts) -> i32 {
                                         .push(format!("generator rejected case {i}: {e}"));
                                 }
                             }
-                            i += nthreads as u64;
+                            i += nshards as u64;
                         }
                         w.stats
                     })
@@ -555,8 +588,213 @@ pub fn run_prop<P: Prop>(prop: &P, opts: &mut Opts) -> i32 {
             }
         }
     });
+    (total, regression_run)
+}
 
+/// Case that a dead worker process was running, reconstructed from its progress record.
+fn case_at<P: Prop>(prop: &P, opts: &Opts, shard: usize, nshards: usize, phase: u64, index: u64) -> Option<(P::Case, String)> {
+    match phase {
+        PHASE_REGRESSION => {
+            let files = replay_files(opts, prop.id());
+            let p = files.get(index as usize)?;
+            Some((load_case::<P>(p)?, format!("regression:{}", p.display())))
+        }
+        PHASE_ENUM => prop.enumerated(opts.tier, shard, nshards).nth(index as usize).map(|c| (c, format!("enumerated shard {shard} #{index}"))),
+        _ => {
+            let strategy = prop.strategy(opts.tier);
+            let mut runner = TestRunner::new_with_rng(
+                Config {
+                    failure_persistence: None,
+                    ..Config::default()
+                },
+                case_rng(opts.seed, prop.id(), index),
+            );
+            strategy.new_tree(&mut runner).ok().map(|t| (t.current(), format!("random index {index} seed {}", opts.seed)))
+        }
+    }
+}
+
+fn supervise<P: Prop>(prop: &P, opts: &mut Opts, _t0: Instant) -> (Stats, u64) {
+    let id = prop.id();
+    let k = opts.threads.max(1);
+    let dir = opts.verif_dir.join("harness").join("target").join("tmp").join(format!("{id}-{}", std::process::id()));
+    let _ = std::fs::create_dir_all(&dir);
+    let exe = std::env::current_exe().unwrap_or_else(|_| PathBuf::from("gdv"));
+    let mut children = Vec::new();
+    for p in 0 .. k {
+        let mut cmd = std::process::Command::new(&exe);
+        cmd.arg(id)
+            .arg("--tier")
+            .arg(opts.tier.name())
+            .arg("--seed")
+            .arg(opts.seed.to_string())
+            .arg("--verif-dir")
+            .arg(&opts.verif_dir)
+            .arg("--worker")
+            .arg(format!("{p}/{k}"))
+            .arg("--worker-dir")
+            .arg(&dir);
+        if let Ok(o) = opts.out.try_clone() {
+            cmd.stdout(std::process::Stdio::from(o));
+        }
+        if let Ok(e) = std::fs::File::create(dir.join(format!("stderr-{p}.txt"))) {
+            cmd.stderr(std::process::Stdio::from(e));
+        }
+        match cmd.spawn() {
+            Ok(c) => children.push((p, c)),
+            Err(e) => {
+                let mut st = Stats::default();
+                st.harness_errors.push(format!("cannot spawn worker process: {e}"));
+                return (st, 0);
+            }
+        }
+    }
+    let mut total = Stats::default();
+    let mut regression_run = 0;
+    for (p, mut c) in children {
+        let status = c.wait();
+        let result = std::fs::read(dir.join(format!("result-{p}.json")))
+            .ok()
+            .and_then(|b| serde_json::from_slice::<(Stats, u64)>(&b).ok());
+        let clean = matches!(&status, Ok(s) if s.success());
+        match (clean, result) {
+            (true, Some((st, reg))) => {
+                total.merge(st);
+                regression_run += reg;
+            }
+            _ => {
+                let code = status.as_ref().ok().and_then(|s| s.code());
+                if code == Some(1) || code == Some(2) {
+                    // the worker reported on its own (hang confirmed -> 1, inconclusive -> 2)
+                    if code == Some(1) {
+                        total.violations.push(Violation {
+                            signature: format!("{id}|hang|reported by worker {p}"),
+                            case: Value::Null,
+                            detail: json!({"note": "see the VIOLATION line printed by the worker"}),
+                            origin: format!("worker {p}"),
+                            shrink_steps: 0,
+                        });
+                    } else {
+                        total.harness_errors.push(format!("worker {p} ended inconclusive"));
+                    }
+                    continue;
+                }
+                // abnormal death: attribute it to the case it was running
+                use std::os::unix::process::ExitStatusExt;
+                let how = match &status {
+                    Ok(s) => {
+                        match (s.signal(), s.code()) {
+                            (Some(sig), _) => format!("signal {sig}"),
+                            (_, Some(c)) => format!("exit status {c}"),
+                            _ => "unknown".into(),
+                        }
+                    }
+                    Err(e) => format!("wait failed: {e}"),
+                };
+                let stderr = std::fs::read_to_string(dir.join(format!("stderr-{p}.txt"))).unwrap_or_default();
+                let first = stderr.lines().find(|l| !l.trim().is_empty()).unwrap_or("").to_string();
+                let prog = std::fs::read(dir.join(format!("progress-{p}"))).unwrap_or_default();
+                if prog.len() == 16 {
+                    let phase = u64::from_le_bytes(prog[.. 8].try_into().unwrap());
+                    let index = u64::from_le_bytes(prog[8 ..].try_into().unwrap());
+                    match case_at(prop, opts, p, k, phase, index) {
+                        Some((case, origin)) => {
+                            total.violations.push(Violation {
+                                signature: format!("{id}|abort|{how}|{}", panics::normalise(&first)),
+                                case: serde_json::to_value(&case).unwrap_or(Value::Null),
+                                detail: json!({"process_ended_with": how, "stderr": stderr.lines().take(6).collect::<Vec<_>>()}),
+                                origin,
+                                shrink_steps: 0,
+                            });
+                        }
+                        None => total.harness_errors.push(format!("worker {p} died ({how}) and its case could not be reconstructed")),
+                    }
+                } else {
+                    total.harness_errors.push(format!("worker {p} died ({how}) before its first case: {first}"));
+                }
+            }
+        }
+    }
+    let _ = std::fs::remove_dir_all(&dir);
+    (total, regression_run)
+}
+
+pub fn run_prop<P: Prop>(prop: &P, opts: &mut Opts) -> i32 {
+    panics::init();
+    if let Some(path) = opts.replay.clone() {
+        if prop.isolate() && !opts.inproc {
+            return replay_isolated(prop, &path, opts);
+        }
+        return replay_one(prop, &path, &mut opts.out);
+    }
+    let id = prop.id();
+    let t0 = Instant::now();
+    let all_findings = findings::load(&opts.verif_dir.join("known_findings.json"));
+    let mine: Vec<Finding> = all_findings.into_iter().filter(|f| f.property == id).collect();
+    let known_open: HashSet<String> = mine
+        .iter()
+        .filter(|f| f.status == "open")
+        .map(|f| f.signature.clone())
+        .collect();
+
+    if let Some((p, k)) = opts.worker {
+        // worker process: one shard, results go to a file
+        let dir = opts.worker_dir.clone().unwrap_or_else(|| PathBuf::from("."));
+        let progress = std::fs::File::create(dir.join(format!("progress-{p}"))).ok();
+        let part = Part {
+            base: p,
+            total: k,
+            threads: 1,
+            regression: p == 0,
+            progress,
+        };
+        let (stats, reg) = explore(prop, opts, part, &known_open, t0);
+        let bytes = serde_json::to_vec(&(stats, reg)).unwrap_or_default();
+        let _ = std::fs::write(dir.join(format!("result-{p}.json")), bytes);
+        return 0;
+    }
+
+    let (total, regression_run) = if prop.isolate() {
+        supervise(prop, opts, t0)
+    } else {
+        let n = opts.threads.max(1);
+        let part = Part {
+            base: 0,
+            total: n,
+            threads: n,
+            regression: true,
+            progress: None,
+        };
+        explore(prop, opts, part, &known_open, t0)
+    };
     finish(prop, opts, total, &mine, regression_run, t0)
+}
+
+/// Replay in a child process so that an abort is reported instead of killing the checker.
+fn replay_isolated<P: Prop>(prop: &P, path: &Path, opts: &mut Opts) -> i32 {
+    use std::os::unix::process::ExitStatusExt;
+    let exe = std::env::current_exe().unwrap_or_else(|_| PathBuf::from("gdv"));
+    let mut cmd = std::process::Command::new(exe);
+    cmd.arg(prop.id()).arg("--replay").arg(path).arg("--inproc").arg("--verif-dir").arg(&opts.verif_dir);
+    if let Ok(o) = opts.out.try_clone() {
+        cmd.stdout(std::process::Stdio::from(o));
+    }
+    match cmd.status() {
+        Ok(s) => {
+            match (s.code(), s.signal()) {
+                (Some(c), _) if c <= 2 => c,
+                (c, sig) => {
+                    let _ = writeln!(opts.out, "replay {}: the process died (status {c:?}, signal {sig:?})", path.display());
+                    let _ = writeln!(opts.out, "VIOLATION property={} replay={}", prop.id(), path.display());
+                    1
+                }
+            }
+        }
+        Err(e) => {
+            let _ = writeln!(opts.out, "cannot start the replay process: {e}");
+            2
+        }
+    }
 }
 
 fn handle_hang<P: Prop>(prop: &P, opts: &mut Opts, case_bytes: &[u8], ms: u64) -> ! {
